@@ -44,6 +44,9 @@ DOCS = [
     ("", ["<!DOCTYPE html><table>a\x00b</table>"]),      # the tokenizer queues two tokens at once (error + NUL)
     ("div", ["<p>a<table>b</table>c"]),                  # fragment whose tree depends on the compatibility mode
     ("TABLE", ["ab<", "!--c-->", " "]),                   # document 10 again: container upper case and passed POSITIONALLY
+    ("#None", ["<p>a<table>b</table>c"]),                 # container=None (positional), "" and 5: outside the domain, rejected
+    ("#empty", ["<p>a<table>b</table>c"]),
+    ("#int", ["<p>a<table>b</table>c"]),
 ]
 
 
@@ -73,7 +76,7 @@ def mc_cfg(maxcalls, docs, lastprobe, export, defects, invs):
                dset(defects)))
 
 
-ALL_THMS = ("ThmLockstep", "ThmHistoryIndependent", "ThmPendingConfined", "ThmInside", "ThmStrict")
+ALL_THMS = ("ThmLockstep", "ThmHistoryIndependent", "ThmPendingConfined", "ThmInside", "ThmStrict", "ThmRejected")
 
 
 # ------------------------------------------------------------------------------------------------
@@ -134,7 +137,7 @@ def replay_history(hist, tb):
         out, tree, errs = lc.run_call(p, tb, call)
         f = lc.new_parser(tb)
         fout, ftree, ferrs = lc.run_call(f, tb, call)
-        got = {"out": out, "items": lc.flat(tree, tb) if out == "ok" else [], "errors": [e[0] for e in errs]}
+        got = {"out": lc.model_out(call, out), "items": lc.flat(tree, tb) if out == "ok" else [], "errors": [e[0] for e in errs]}
         exp = {"out": h["out"], "items": view_items(h["items"], tb, frag), "errors": h["errors"]}
         if got != exp:
             bad.append({"call": ci + 1, "what": "result differs from the code-faithful machine", "expected": exp, "got": got})
@@ -178,6 +181,8 @@ def vocab_calls(rng, ncalls):
         conv = rng.choice(["kw", "kw", "pos"])
         if frag is not None:
             frag = rng.choice([frag, frag, frag.upper(), frag.title()])      # same element, other letter case
+            if rng.random() < 0.12:
+                frag = rng.choice(sorted(lc.BAD_CONTAINERS))                 # an argument value outside the domain: rejected
         call = {"frag": frag, "chunks": chunks, "fail": fail, "strict": strict, "conv": conv}
         if frag is None and rng.random() < 0.12:
             # a byte string whose encoding declaration lies beyond the prescan window: reset() and re-parse inside the call
@@ -203,7 +208,8 @@ def record_vocab(tb, calls):
         fout, ftree, ferrs = lc.run_call(f, tb, call)
         eq = (out, lc.exact(tree, tb), errs) == (fout, lc.exact(ftree, tb), ferrs)
         pers = lc.persistent(p)
-        out_calls.append({"frag": call["frag"] or "", "strict": call["strict"], "toks": [strip_r(t) for t in log], "out": out,
+        out_calls.append({"frag": call["frag"] or "", "strict": call["strict"], "toks": [strip_r(t) for t in log],
+                          "out": lc.model_out(call, out),
                           "items": lc.flat(tree, tb) if out == "ok" else [], "errors": [e[0] for e in errs],
                           "eqFresh": eq, "pend": pers["pend"], "spaceH": pers["spaceH"]})
     return {"kind": "vocab", "tb": tb, "calls": out_calls}
@@ -402,7 +408,8 @@ def wide_call(ctx, pool):
     text = wide_doc(ctx, pool)
     chunks = lc.chunking(rng, text) if "\r" not in text and not any(0xD800 <= ord(c) < 0xE000 for c in text) else [text]
     return {"conv": rng.choice(["kw", "pos"]),
-            "frag": rng.choice(["div", "table", "tr", "td", "select", "textarea", "title", "svg", "pre", "body", "html", "TR", "Select"])
+            "frag": rng.choice(["div", "table", "tr", "td", "select", "textarea", "title", "svg", "pre", "body", "html", "TR", "Select",
+                               "#None", "#empty", "#int"])
             if rng.random() < 0.3 else None,
             "chunks": chunks, "strict": rng.random() < 0.3,
             "fail": rng.randint(1, len(chunks) + 1) if rng.random() < 0.25 else 0}
